@@ -125,7 +125,8 @@ def check(case):
         pre.write_text(real0)
         np.random.seed(case["np_seed"])
         ret = guarded(mf.make_decoys, paths if len(paths) > 1 else paths[0], str(out), decoy_prefix=case["prefix"],
-                      enzyme=case["enzyme"], reverse=case["reverse"], concatenate=case["concatenate"], sig="make_decoys")
+                      enzyme=(re.compile(case["enzyme"]) if case["seed"] % 2 else case["enzyme"]), reverse=case["reverse"],
+                      concatenate=case["concatenate"], sig="make_decoys")
         text = out.read_text()
         got = _read_fasta(text)
         # mokapot's own reader must recover the same entries (round trip)
